@@ -15,7 +15,11 @@ for i, x in enumerate(a):
         tier = a[i + 1]
 wt = "/tmp/wt/B%s" % prop
 src = "%s/_seed/%s" % (wt, k)
-dst = os.path.join(ROOT, "benign", "%s-%s" % (prop, k))
+dstname = "%s-%s" % (prop, k)
+for i, x in enumerate(a):
+    if x == "--as":
+        dstname = a[i + 1]
+dst = os.path.join(ROOT, "benign", dstname)
 env = dict(os.environ, GOFLAGS="-mod=mod", GOPROXY="off", GOSUMDB="off", GOTOOLCHAIN="local")
 meta_path = os.path.join(dst, "meta.json")
 meta = json.load(open(meta_path)) if os.path.exists(meta_path) else {}
@@ -36,7 +40,7 @@ if os.path.isdir(src) and "--noconfirm" not in a:
     meta.update(property=prop, kind="benign", confirmed="builds (with and without -tags verif) and passes the complete test suite", when=time.strftime("%Y-%m-%d %H:%M"))
 patch = os.path.join(dst, "patch.diff")
 # applied to a scratch worktree of /repo's HEAD (never to /repo itself); evidence / replays of these runs go to VERIF_OUT
-scratch = "/tmp/evalrepo-B%s-%s-%d" % (prop, k, os.getpid())
+scratch = "/tmp/evalrepo-B%s-%d" % (dstname, os.getpid())
 subprocess.run(["git", "-C", "/repo", "worktree", "add", "-q", "--detach", scratch, "HEAD"], check=True)
 res = meta.setdefault("checks", {})
 try:
@@ -49,7 +53,7 @@ try:
         q = subprocess.run([os.path.join(ROOT, "check"), c, "--tier", tier], capture_output=True, text=True, cwd=ROOT, env=cenv)
         lines = [l for l in q.stdout.splitlines() if l.startswith(("VIOLATION", "  sig=", "KNOWN"))]
         res["%s/%s" % (c, tier)] = dict(rc=q.returncode, seconds=round(time.time() - t), sigs=[l.strip()[:300] for l in lines if "sig=" in l][:6])
-        print("check %s --tier %s on BENIGN %s-%s -> rc=%d %s" % (c, tier, prop, k, q.returncode, "(silent, as required)" if q.returncode == 0 else "  <-- ALARM ON A BENIGN CHANGE"))
+        print("check %s --tier %s on BENIGN %s -> rc=%d %s" % (c, tier, dstname, q.returncode, "(silent, as required)" if q.returncode == 0 else "  <-- ALARM ON A BENIGN CHANGE"))
         for l in lines[:6]:
             print("   ", l[:260])
         if q.returncode == 2:
